@@ -51,6 +51,8 @@ fn cold(evs: Vec<Ev>) -> Tl {
 pub fn eval_src(s: &Src, inp: &Inputs, o: Opts) -> Option<Tl> {
   Some(match s {
     Src::Of(v) | Src::OfFn(v) | Src::Start(v) | Src::FutureReady(v) => cold(vec![Ev::N(v.clone()), Ev::C]),
+    Src::FutureResultReady(Ok(v)) => cold(vec![Ev::N(v.clone()), Ev::C]),
+    Src::FutureResultReady(Err(e)) => cold(vec![Ev::Er(e.clone())]),
     Src::OfOption(Some(v)) => cold(vec![Ev::N(v.clone()), Ev::C]),
     Src::OfOption(None) => cold(vec![Ev::C]),
     Src::OfResult(Ok(v)) => cold(vec![Ev::N(v.clone()), Ev::C]),
